@@ -457,6 +457,8 @@ impl BufferedDatabaseWriter {
         thread::spawn(move || {
             while let Some(mut buffer) = receive_buffer.blocking_recv() {
                 let result = Self::process_batch_write(&mut buffer, &conn);
+                #[cfg(feature = "verif")]
+                crate::verif_hooks::failpoint("before_ack");
                 match result {
                     Ok(_) => {
                         for msg in buffer {
@@ -582,6 +584,8 @@ impl BufferedDatabaseWriter {
                         }
                     }
                 }
+                #[cfg(feature = "verif")]
+                crate::verif_hooks::failpoint("after_ack");
                 let _s = send_ready.blocking_send(true);
             }
         });
@@ -608,7 +612,11 @@ impl BufferedDatabaseWriter {
         let mut optimize = false; //flag to run the optimize task outside a transaction
 
         conn.execute("BEGIN TRANSACTION", [])?;
+        #[cfg(feature = "verif")]
+        crate::verif_hooks::failpoint("after_begin");
         for query in buffer {
+            #[cfg(feature = "verif")]
+            crate::verif_hooks::failpoint("before_msg");
             match query {
                 WriteMessage::Deletion(query, _) => {
                     if let Err(e) = query.delete(conn) {
@@ -704,8 +712,16 @@ impl BufferedDatabaseWriter {
             }
         }
         //at the end of the batch, update the daily log with all room dates that needs to be recomputed
+        #[cfg(feature = "verif")]
+        crate::verif_hooks::failpoint("before_marks");
         daily_log.write(conn)?;
+        #[cfg(feature = "verif")]
+        crate::verif_hooks::failpoint("before_commit");
+        #[cfg(feature = "verif")]
+        crate::verif_hooks::failpoint_err("commit")?;
         conn.execute("COMMIT", [])?;
+        #[cfg(feature = "verif")]
+        crate::verif_hooks::failpoint("after_commit");
 
         // run the PRAGMA optimize; outside the transaction
         if optimize {
